@@ -330,6 +330,9 @@ func (update *Update) Prepend(eventlist *EventList) error {
 	if count == 0 {
 		return nil
 	}
+	if len(update.Events) == 0 {
+		return errors.New("cannot prepend to an update without events")
+	}
 	ours := update.Events[0].Index
 	last := eventlist.Events[count-1].Index
 	if last < ours-1 {
@@ -344,7 +347,11 @@ func (update *Update) Prepend(eventlist *EventList) error {
 		SignedAccumulator: update.SignedAccumulator,
 		Events:            update.Events[min:],
 	}
-	n.product = n.Product(n.Events[0].Index)
+	if len(n.Events) > 0 {
+		n.product = n.Product(n.Events[0].Index)
+	} else {
+		n.product = big.NewInt(1) // the prepended list covers all our events
+	}
 	n.Events = append(eventlist.Events, n.Events...)
 	if eventlist.product != nil {
 		n.product.Mul(n.product, eventlist.product)
